@@ -281,6 +281,8 @@ def rule_r4(chk):
     ok = "dynamic=_deblank(visited_children[0])" in src and "steady=_deblank(visited_children[1])" in src and "return(dynamic,steady)" in src
     chk.ob("C04-R4", "parsers.models._Visitor.visit_eqn_body", ok, "returns (dynamic, steady) in grammar order eqn_version eqn_steady", mm.loc(vb))
     # the all-but flag must be recorded whatever the log list contains (an empty list with !all-but means "all")
+    chk.rule("C04-R6", "the !all-but flag is recorded unconditionally: the visitor call that stores it is reached on every path (no early "
+             "return before it, no enclosing condition), so `!log-variables !all-but` with an empty list means all variables", floor=1, shape_independent=True)
     adders = []
     for name, g in mm.methods("_Visitor").items():
         env_ = {n.targets[0].id: n.value for n in walk_no_nested(g) if isinstance(n, ast.Assign) and isinstance(n.targets[0], ast.Name)}
@@ -291,7 +293,7 @@ def rule_r4(chk):
                 if isinstance(a0, ast.Constant) and a0.value == "all-but":
                     adders.append((name, g, c))
     if not adders:
-        chk.bad("C04-R4", "parsers.models._Visitor[all-but recorded]", "no visitor records the !all-but flag", mm.loc(vis))
+        chk.bad("C04-R6", "parsers.models._Visitor[all-but recorded]", "no visitor records the !all-but flag", mm.loc(vis))
     for name, g, c in adders:
         early = [r for r in walk_no_nested(g) if isinstance(r, ast.Return) and r.lineno < c.lineno]
         cond = []
@@ -301,7 +303,7 @@ def rule_r4(chk):
             if isinstance(cur, ast.If):
                 cond.append(unparse(cur.test))
         ok = not early and not cond
-        chk.ob("C04-R4", f"parsers.models._Visitor.{name}[all-but unconditional]", ok,
+        chk.ob("C04-R6", f"parsers.models._Visitor.{name}[all-but unconditional]", ok,
                "the flag is recorded on every visit" if ok else
                f"the flag is recorded only when {cond or 'an earlier return is not taken'}: '!log-variables !all-but' with an empty list loses it", mm.loc(c))
     # _populate_logly: listed -> not all_but ; unlisted -> all_but
@@ -377,10 +379,10 @@ def rule_r5(chk):
 
 
 def run(chk):
-    rule_r1_r3(chk)
-    rule_r2(chk)
-    rule_r4(chk)
-    rule_r5(chk)
+    chk.guard(rule_r1_r3, chk)
+    chk.guard(rule_r2, chk)
+    chk.guard(rule_r4, chk)
+    chk.guard(rule_r5, chk)
     chk.assumptions = [
         "_shift_all_names is modelled on identifiers with optional [k]; its regex on arbitrary text is not decided",
         "regex behaviour on arbitrary nestings, Jinja, !for/!if expansion and substitution ordering are run-time text processing",
